@@ -26,6 +26,59 @@ class Variant:
 
 
 REPRINT = Variant("whole package re-printed by ast.unparse (comments, layout and line numbers change)", "benign", [])
+RENAME = Variant("every function-local variable of the package renamed (alpha-renaming; parameters, attributes, functions keep their names)", "benign", [])
+
+
+class _Renamer:
+    """consistent renaming of the names a function binds locally (not parameters, not global / nonlocal names, not the
+    parameters of nested functions); nested scopes are renamed along, so closures keep referring to the same variable"""
+
+    @staticmethod
+    def locals_of(fn):
+        import ast
+
+        a = fn.args
+        params = {x.arg for x in a.args + a.kwonlyargs + a.posonlyargs}
+        if a.vararg:
+            params.add(a.vararg.arg)
+        if a.kwarg:
+            params.add(a.kwarg.arg)
+        glob, loc, nested_params = set(), set(), set()
+        for n in ast.walk(fn):
+            if isinstance(n, (ast.Global, ast.Nonlocal)):
+                glob |= set(n.names)
+            if isinstance(n, ast.Name) and isinstance(n.ctx, ast.Store):
+                loc.add(n.id)
+            if n is not fn and isinstance(n, (ast.FunctionDef, ast.Lambda)):
+                b = n.args
+                for x in b.args + b.kwonlyargs + b.posonlyargs:
+                    nested_params.add(x.arg)
+        return loc - params - glob - nested_params - {"_"}
+
+    @classmethod
+    def module(cls, src: str, suffix: str = "_x") -> str:
+        import ast
+
+        tree = ast.parse(src)
+
+        class T(ast.NodeTransformer):
+            def __init__(self, names):
+                self.names = names
+
+            def visit_Name(self, n):
+                if n.id in self.names:
+                    return ast.copy_location(ast.Name(id=n.id + suffix, ctx=n.ctx), n)
+                return n
+
+        def do(node):
+            for ch in ast.iter_child_nodes(node):
+                if isinstance(ch, (ast.FunctionDef, ast.AsyncFunctionDef)):
+                    T(cls.locals_of(ch)).visit(ch)
+                else:
+                    do(ch)
+
+        do(tree)
+        return ast.unparse(tree) + "\n"
 
 
 def apply(sources: Dict[str, str], v: Variant) -> Optional[Dict[str, str]]:
@@ -36,6 +89,11 @@ def apply(sources: Dict[str, str], v: Variant) -> Optional[Dict[str, str]]:
         for mod, src in sources.items():
             if not mod.startswith(("schema:", "file:")):
                 out[mod] = ast.unparse(ast.parse(src)) + "\n"
+        return out
+    if v is RENAME or v.name == RENAME.name:
+        for mod, src in sources.items():
+            if not mod.startswith(("schema:", "file:")):
+                out[mod] = _Renamer.module(src)
         return out
     for mod, old, new in v.edits:
         src = out.get(mod)
@@ -84,7 +142,7 @@ def _one(job):
 
 
 def run(prop: str, sources: Dict[str, str], base_keys, variants: List[Variant], jobs: int = 16) -> dict:
-    jobs_list = [(prop, sources, sorted(base_keys), v) for v in list(variants) + [REPRINT]]
+    jobs_list = [(prop, sources, sorted(base_keys), v) for v in list(variants) + [REPRINT, RENAME]]
     if not jobs_list:
         return {"lines": ["self-validation: no variants"], "summary": {}, "failed": 0}
     n = max(1, min(jobs, len(jobs_list)))
